@@ -723,6 +723,8 @@ class HttpRequestParser(HttpParser[RawRequestMessage]):
                 # absolute-form for proxy maybe,
                 # https://datatracker.ietf.org/doc/html/rfc7230#section-5.3.2
                 url = URL(path, encoded=True)
+                # yarl splits the authority lazily; a malformed one must fail here
+                url.host
                 if not url.absolute:
                     # authority-form is only allowed with CONNECT
                     # https://www.rfc-editor.org/info/rfc9112/#section-3.2.3-1
